@@ -80,8 +80,12 @@ def project(det, npoints=1):
 def two_pass(seq, law_id='lin'):
     det = new_detector(ExactLaw(law_id))
     arr = np.asarray(seq, dtype=np.float64)
-    det.process_hcm_first(arr)
-    det.process_hcm_second(arr)
+    buf = arr.copy()                 # the caller's array is overwritten between and after the two calls: the detector must not keep a reference to it
+    det.process_hcm_first(buf)
+    buf[:] = 7.7e77
+    buf = arr.copy()
+    det.process_hcm_second(buf)
+    buf[:] = 7.7e77
     return det
 
 
@@ -109,8 +113,11 @@ def history_single(seq, law_id, cuts, flushes):
     det = new_detector(ExactLaw(law_id))
     arr = np.asarray(seq, dtype=np.float64)
     pos = 0
+    buf = np.empty(max(list(cuts) + [1]), dtype=np.float64)       # one re-used read buffer, overwritten after every call (see rf.run_chunked)
     for c, fl in zip(cuts, flushes):
-        det.process(arr[pos:pos + c], flush=fl)
+        buf[:c] = arr[pos:pos + c]
+        det.process(buf[:c], flush=fl)
+        buf[:] = 7.7e77
         pos += c
     return det
 
